@@ -407,16 +407,48 @@ def work_directed(task):
     return {"cov": cov, "viol": viol}
 
 
+def work_race(task):
+    """Race-directed pass: a happens-before detector looks for unsynchronised accesses to worker
+    attributes on a handful of schedules; if it finds any, a line-level search with scheduling points
+    in the racing functions only (preemption bound `bound`) looks for an execution that breaks the property."""
+    cfg, K, I, mode, bound, cap = task[:6]
+    make = make_factory(cfg)
+    codes, races = sched.find_races(make, K, I, cleanup)
+    cov = {"evaluations": 0, "states": 0, "transitions": 0, "traces_validated_against_impl": 0, "distinct_nontrivial": 0,
+           "race_detector_configs": 1, "races_found": len(races)}
+    viol = []
+    if codes:
+        cov["races"] = [cfg_str(cfg) + ": " + r for r in races[:6]]
+        st = sched.explore(make, check, timeouts=K, interrupts=I, line_mode=True, preemption_bound=bound,
+                           max_executions=cap or 6000, cleanup=cleanup, line_codes=codes, max_seconds=TASK_SECONDS[0])
+        if st.cap_hit:
+            cov["caps_hit"] = [cfg_str(cfg) + " (race-directed): " + st.cap_hit]
+            cov["exhaustive"] = False
+        cov.update({"evaluations": st.executions, "states": st.states, "transitions": st.transitions,
+                    "traces_validated_against_impl": st.executions, "distinct_nontrivial": st.executions})
+        for trace, msg, labels in st.violations[:2]:
+            small = sched.minimize(make, check, trace, K, I, True, cleanup, line_codes=codes)
+            if small:
+                trace, msg, labels = small
+            key = "cfg=%s race-directed schedule=%s" % (cfg_str(cfg), ".".join(map(str, trace)))
+            viol.append((key, msg + " [unsynchronised access: %s]" % races[0], {
+                "kind": "sched", "cfg": cfg, "timeouts": K, "interrupts": I, "mode": "line", "schedule": trace,
+                "line_codes": sorted(list(c) for c in codes), "steps": sched.describe(labels)}))
+    return {"cov": cov, "viol": viol}
+
+
 def work(task):
     cfg, K, I, mode, bound, cap = task[:6]
     if mode == "directed":
         return work_directed(task)
+    if mode == "race":
+        return work_race(task)
     start_stack = task[6] if len(task) > 6 else None
     make = make_factory(cfg)
     budget = SPLIT_BUDGET if start_stack is not None else None
     st = sched.explore(make, check, timeouts=K, interrupts=I, line_mode=(mode == "line"),
                        preemption_bound=bound, max_executions=cap or budget, cleanup=cleanup, start_stack=start_stack,
-                       return_leftover=start_stack is not None)
+                       return_leftover=start_stack is not None, max_seconds=TASK_SECONDS[0])
     viol = []
     for trace, msg, labels in st.violations[:2]:
         small = sched.minimize(make, check, trace, K, I, mode == "line", cleanup)
@@ -445,6 +477,7 @@ def work(task):
     return out
 
 
+TASK_SECONDS = [90]  # wall-clock cap per exploration task (a cap is reported, never a verdict)
 SPLIT_BUDGET = 250  # executions per split task before the remaining subtree is handed back
 
 
@@ -497,6 +530,8 @@ def plan(prop, tier):
         for p in (["AAA", "AAAA"] if quick else ["AAA", "AAAA", "AAAAA", "AAaAAA"]):
             for o in (["rec"], ["rec", "rec"]):
                 tasks.append((dict(kind="run", pattern=p, observers=o, split="s2"), 1 if len(o) > 1 else K, 0, "sync", None, None))
+        for p, o, sp in (("AaA", ["rec", "print"], "s0"), ("AAAA", ["rec", "rec"], "s2"), ("AAaA", ["rec", "join", "regsave"], "s1")):
+            tasks.append((dict(kind="run", pattern=p, observers=o, split=sp), 1, 0, "race", 2 if quick else 3, None))
         # directed starvation schedules on a long stream (300 detections): capacity effects
         tasks.append((dict(kind="run", pattern="A" * 300, observers=["rec", "print"], split="s2"), 10 ** 6, 0, "directed", None, None))
         # line-level pass: the stand-in for a race detector
@@ -528,6 +563,9 @@ def plan(prop, tier):
                 tasks.append((dict(kind="cli", pattern=p, observers=[], split="s0", argv=argv), 0 if quick else 1, 1, "sync", None, None))
         for p in (["A"] if quick else ["A", "AaA"]):
             tasks.append((dict(kind="stop", pattern=p, observers=["rec"], split="s0"), 0, 0, "line", 1, None))
+        tasks.append((dict(kind="stop", pattern="AAaA", observers=["rec", "print"], split="s0", saver=True, cache=0.1), 1, 0, "race", 2 if quick else 3, None))
+        tasks.append((dict(kind="cli", pattern="AaA", observers=[], split="s0", argv=["-O", "@stream.wav"]), 0, 1, "race", 2, None))
+        tasks.append((dict(kind="cli", pattern="AAAA", observers=[], split="s0", argv=["-q", "-O", "@stream.wav", "-j", "0.1", "-o", "@ev_{id}.wav"]), 0, 1, "race", 2, None))
     if prop == "C13":
         L = 4 if quick else 5
         caches = [0, 0.1, 0.15, 1000]
@@ -556,6 +594,8 @@ def plan(prop, tier):
             for c in (0.1, 1000):
                 tasks.append((dict(kind="run", pattern=p, observers=["join"], split="s1", saver=True, cache=c, sw=1, ch=2),
                               1, 0, "sync", None, None))
+        for p, o, c in (("AAAA", [], 0.1), ("AAAAA", [], 0.15), ("AaAA", ["join", "regsave"], 0.1), ("AAAA", ["join"], 1000)):
+            tasks.append((dict(base, pattern=p, observers=o, saver=True, cache=c), 1, 0, "race", 2 if quick else 3, None))
         tasks.append((dict(base, pattern="Aa" * 150, observers=["join"], split="s2", saver=True, cache=0.5), 10 ** 6, 0, "directed", None, None))
         tasks.append((dict(kind="stop", pattern="AaA", observers=["join"], split="s0", saver=True, cache=0.15), 0, 0, "sync", None, None))
         for p in (["AA"] if quick else ["AA", "AaA"]):
@@ -572,6 +612,7 @@ TECH = ("stateless exploration of the real worker threads under a controlled sch
 
 def run(prop, tier):
     lib()
+    TASK_SECONDS[0] = 90 if tier == "quick" else 900
     rep = common.Report(prop, tier, TECH)
     tasks = plan(prop, tier)
     rep.cov["rule"] = (
@@ -611,7 +652,8 @@ def replay(case):
     make = make_factory(cfg)
     ex, ctx = sched.run_once(make, case["schedule"], case.get("timeouts", 0), case.get("interrupts", 0),
                              case.get("mode") == "line", None,
-                             policy=sched.starve_policy(case["policy"]) if case.get("policy") else None)
+                             policy=sched.starve_policy(case["policy"]) if case.get("policy") else None,
+                             line_codes=(set(tuple(c) for c in case["line_codes"]) if case.get("line_codes") else None))
     msg = check(ex, ctx)
     cleanup(ctx)
     return msg
